@@ -205,7 +205,9 @@ def trace_leg(ctx: Ctx, n: int):
 # ------------------------------------------------------------------ explicit probes
 PROBES = ["[[a ~ b] ~ c]", "[[a~b]~c] + d", "[[a ~ b] + [c ~ d] ~ e]", "[a ~ [b ~ c]]", "(a]", "a**(0)", "(a-a)/b", "f(``)", "a ~", "~", "[", "]", "[]", "[~]", "[a]",
           "[a ~ b", "a ~ b]", "a | | b", "a ^ b ^ c", "a %in% ", "`", "``", "'", "a'b", "{a", "a}", "{", "}", "a ~ b ~ c", "0 ~ 0", "1 | 1 ~ 1", "a:", ":a", "a::b", "a + (", "a())", "f(", "f(a))", "I(", ".",
-          ". ~ .", "a ~ . | .", "-", "--1", "a - - a", "+", "a +", "()", "(())", "a()", "1()", "(a)(b)", "a b", "1 2", "a 1", "`a` `b`", "a\\", "\\"]
+          ". ~ .", "a ~ . | .", "-", "--1", "a - - a", "+", "a +", "()", "(())", "a()", "1()", "(a)(b)", "a b", "1 2", "a 1", "`a` `b`", "a\\", "\\",
+          "{(a + b).abs()} ~ a", "f(a)[0](b) ~ a", "{a[0].z} ~ b", "a ~ {(a + b).abs()}", "{(a).b} ~ .", "{f(a)(b)} + .", "{[a][0].real} ~ b", "{a if b else c} ~ a",
+          "{(lambda q: q)(a)} ~ b", "{-a.b} ~ c", "{a.b.c()} ~ d", "{a[b](c).d} | e ~ f"]
 
 
 def probe_leg(ctx: Ctx):
